@@ -24,7 +24,7 @@ use unicode_width::UnicodeWidthChar;
 pub fn world() -> World {
     World {
         name: "full",
-        properties: &["C01"],
+        properties: &["C01", "C17"],
         run,
         real: &[
             "terminal::Terminal::run_render (frame dropping, resize, error path) on the real terminal object",
@@ -353,6 +353,10 @@ struct St {
     decorated: bool,
     checks: u64,
     burst: u32,
+    /// typed keys and wake events the handler (or the final drain) has seen
+    keys: Vec<char>,
+    wakes_seen: u64,
+    last_wake_event_step: u64,
     /// execute() count when the handler returned last
     execs_at_return: u64,
     violation: Option<Violation>,
@@ -452,6 +456,7 @@ fn run(ctx: &Ctx, src: &mut Src) -> WorldResult {
     let kernel: K = Rc::new(RefCell::new(new_kernel(live)));
     let result = catch_unwind(AssertUnwindSafe(|| session(ctx, &kernel)));
     rustix::sim::uninstall();
+    surf_n_term::common::verif_yield::set(None);
     {
         let mut k = kernel.borrow_mut();
         k.waker = None;
@@ -472,7 +477,7 @@ fn all_consumed(pending: usize, k: &Kernel) -> bool {
     pending == 0 && k.out_buf.is_empty() && matches!(k.vt, VtState::Ground) && k.vscreen.as_ref().is_some_and(|vs| vs.quiescent())
 }
 
-fn session(_ctx: &Ctx, kernel: &K) -> WorldResult {
+fn session(ctx: &Ctx, kernel: &K) -> WorldResult {
     // ---- environment and emulator personality
     {
         let mut k = kernel.borrow_mut();
@@ -501,6 +506,7 @@ fn session(_ctx: &Ctx, kernel: &K) -> WorldResult {
     let raw = fd.as_raw_fd();
     kernel.borrow_mut().tty_fd = raw;
     rustix::sim::install(raw, Box::new(HooksImpl(kernel.clone())));
+    install_yield_hook(kernel);
     {
         let mut k = kernel.borrow_mut();
         if k.src.chance(1, 10) {
@@ -610,11 +616,14 @@ fn session(_ctx: &Ctx, kernel: &K) -> WorldResult {
     // ---- drain what is still queued, then the final comparison
     let mut drained = false;
     if judge {
-        for _ in 0..400 {
+        let mut idle_polls = 0;
+        for _ in 0..600 {
             let pending = wrap.inner.frames_pending();
             {
                 let k = kernel.borrow();
-                if all_consumed(pending, &k) {
+                // nothing left to arrive either: no key, wake or signal is still scheduled
+                let quiet = k.in_queue.is_empty() && k.events.values().all(|ev| !matches!(ev, Ev::Input(..) | Ev::Wake | Ev::Signal(..)));
+                if all_consumed(pending, &k) && quiet && idle_polls >= 1 {
                     drained = true;
                     break;
                 }
@@ -623,13 +632,50 @@ fn session(_ctx: &Ctx, kernel: &K) -> WorldResult {
                 }
             }
             match guarded(|| wrap.inner.poll(Some(Duration::from_millis(20)))) {
-                Ok(Ok(_)) | Ok(Err(Error::Quit)) => {}
+                Ok(Ok(event)) => {
+                    if event.is_some() {
+                        idle_polls = 0;
+                        let k = kernel.borrow();
+                        note_event(&mut st.borrow_mut(), &k, &event);
+                    } else {
+                        idle_polls += 1;
+                    }
+                }
+                Ok(Err(Error::Quit)) => idle_polls = 0,
                 _ => break,
             }
         }
     }
     let mut verdict = Ok(());
-    if drained {
+    if drained && ctx.prop == "C17" && !error_path {
+        // everything has been delivered and consumed, nothing is scheduled: what the user typed
+        // and the wake requests must have reached the handler (or the polls after it returned)
+        let s = st.borrow();
+        let mut k = kernel.borrow_mut();
+        k.src.nontrivial = true;
+        k.src.probe("full-event-delivery-judged");
+        let typed: String = k.typed.iter().map(|b| *b as char).collect();
+        let keys: String = s.keys.iter().collect();
+        if typed != keys {
+            return_violation(kernel, &mut k);
+            return Err(violation(
+                "C17",
+                "C17.input-order",
+                if keys.len() < typed.len() { "run-render:typed-input-lost" } else { "run-render:typed-input-reordered-or-duplicated" },
+                format!("during a run_render session the user typed {typed:?} but the key events handed to the handler (and to the polls after it returned) were {keys:?}"),
+            ));
+        }
+        if k.wakes_requested > 0 && (s.wakes_seen == 0 || s.last_wake_event_step < k.last_wake_seq) {
+            return_violation(kernel, &mut k);
+            return Err(violation(
+                "C17",
+                "C17.lost-wakeup",
+                "run-render:wake-request-without-wake-event",
+                format!("{} wake requests during a run_render session, {} Wake events; none after the last request", k.wakes_requested, s.wakes_seen),
+            ));
+        }
+    }
+    if drained && ctx.prop == "C01" {
         let mut s_guard = st.borrow_mut();
         let s = &mut *s_guard;
         let drops_now = drops.load(Ordering::SeqCst);
@@ -685,6 +731,30 @@ fn session(_ctx: &Ctx, kernel: &K) -> WorldResult {
     verdict
 }
 
+/// bookkeeping of an event seen by the application
+fn note_event(s: &mut St, k: &Kernel, event: &Option<TerminalEvent>) {
+    match event {
+        Some(TerminalEvent::Key(key)) => {
+            if let KeyName::Char(c) = key.name {
+                if key.mode.is_empty() && c.is_ascii() && TYPED.contains(&(c as u8)) {
+                    s.keys.push(c);
+                }
+            }
+        }
+        Some(TerminalEvent::Wake) => {
+            s.wakes_seen += 1;
+            s.last_wake_event_step = k.steps;
+        }
+        _ => {}
+    }
+}
+
+/// a violation ends the session early: the terminal is dropped by the caller's scope
+fn return_violation(_kernel: &K, k: &mut Kernel) {
+    k.signals_enabled = false;
+    k.disposing = true;
+}
+
 thread_local! {
     static OUTCOME: RefCell<Option<Result<(), AppErr>>> = const { RefCell::new(None) };
 }
@@ -704,6 +774,7 @@ fn wrap_run(wrap: &mut Wrap, st: &Rc<RefCell<St>>, kernel: &K, counters: &Counte
         let now = k.now;
         let emu = size_of(k.winsize);
         let vs_gen = k.vscreen.as_ref().unwrap().gen;
+        note_event(&mut s, &k, &event);
         if let Some(TerminalEvent::Resize(size)) = &event {
             s.resized = true;
             if size.cells == emu.cells {
